@@ -170,9 +170,9 @@ def plan(pid, tier):
                ("basic", 3, 2, 0, 1), ("basic", 4, 1, 0, 0), ("basic", 2, 2, 1, 0),
                ("simple", 2, 1, 0, 1), ("simple", 1, 2, 0, 0), ("simple", 1, 1, 1, 0)]
     else:
-        cfg = [("append_data", 4, 3, 0, 1), ("append_data_reverse", 4, 3, 0, 0), ("append_data", 3, 2, 1, 1),
-               ("basic", 3, 2, 0, 1), ("basic", 4, 1, 0, 0), ("basic", 2, 2, 1, 0),
-               ("simple", 2, 1, 1, 1), ("simple", 1, 2, 0, 1), ("simple", 2, 2, 0, 0), ("simple", 3, 1, 0, 0)]
+        cfg = [("append_data", 5, 3, 0, 1), ("append_data_reverse", 4, 3, 0, 1), ("append_data", 3, 2, 1, 1),
+               ("basic", 3, 3, 0, 0), ("basic", 4, 2, 0, 1), ("basic", 3, 2, 1, 1),
+               ("simple", 2, 1, 1, 1), ("simple", 1, 2, 0, 1), ("simple", 2, 1, 0, 1), ("simple", 1, 1, 2, 1)]
     for (s, K, M, S, Pn) in cfg:
         P.append(("STEP %s K=%d M=%d stale=%d pending=%d" % (s, K, M, S, Pn), layout.step_tasks(s, K, M, S, Pn), dict(base)))
     # arbitrary definition satisfying the invariant: capacity / alignment / Display (C02 capacity clause, C13)
@@ -379,7 +379,7 @@ def run(pid, tier):
         try:
             import check_kgen
             check_kgen.configure("C13")
-            okb, outb, dtb = check_kgen.build_native(2)
+            okb, outb, dtb = check_kgen.build_native(2, resilient=False)
             build_fact = "generated modules of the definition family (default, +clone, +serde, +both) compile: %s (%.0fs)" % ("yes" if okb else "NO", dtb)
             if not okb:
                 m = re.search(r"(error(?:\[E\d+\])?: [^\n]*)\n\s*--> ([^\n:]*/out/([A-Za-z0-9_]+)\.rs):(\d+)", outb)
@@ -389,6 +389,11 @@ def run(pid, tier):
                     sh(["cp", m.group(2), rp])
                     v.violation(rp, "C13: the module generated for definition `%s` is rejected by rustc: %s (line %s) [build fact]" %
                                 (m.group(3).split("__")[0], m.group(1)[:160], m.group(4)))
+                elif re.search(r"too big for the target architecture|evaluation of constant value failed", outb):
+                    mm = re.search(r"(error[^\n]*(?:too big for the target architecture|evaluation of constant value failed)[^\n]*)", outb)
+                    rp = os.path.join(rdir, "generated-too-big.txt")
+                    open(rp, "w").write(outb[-4000:])
+                    v.violation(rp, "C13: a generated module of the definition family is rejected by rustc when its record types are used: %s [build fact]" % (mm.group(1)[:200] if mm else ""))
                 elif pan and "build.rs" not in pan.group(1):
                     rp = os.path.join(rdir, "generator-panic.txt")
                     open(rp, "w").write(outb[-4000:])
@@ -397,6 +402,13 @@ def run(pid, tier):
                     v.inconc("the harness crate over the generated modules does not build: " + outb[-300:].replace("\n", " | "))
         except Exception as ex:  # noqa
             v.inconc("C13 build by-product failed to run: %r" % (ex,))
+    kgen_layout = None
+    if pid in ("C02", "C03"):
+        try:
+            import check_kgen
+            kgen_layout = check_kgen.layout_subcheck(pid, tier, v)
+        except Exception as ex:  # noqa
+            v.inconc("kgen layout harnesses failed to run: %r" % (ex,))
     if inv_breaks and not v.violations:
         lab, task, part, model = inv_breaks[0]
         v.inconc("the representation invariant (list address-sorted including zero-size data) is not preserved by one close on this tree "
@@ -421,6 +433,7 @@ def run(pid, tier):
         "mir_dump": info,
         "inv_breaks": len(inv_breaks),
         "build_fact": build_fact,
+        "kgen_layout_harnesses": kgen_layout,
         "repo_head": repo_head(),
         "exhaustive": False,
     }
